@@ -38,21 +38,18 @@ set_option linter.unusedVariables false
       the loader appends `__schema: __Schema!` / `__type(name: String!): __Type` AFTER validation, so
       without the prelude these names need not resolve (`C07_closed_fieldTypes`, `C07_closed_argTypes`).
 
-  (R) root operation types are object types — the recorded "non-object root" finding: the loader
-      does not check the kind of a root type.
-        `QueryRootNotKind k s`            the query root is not of kind `k`
+  (R) root operation types are object types.  Since the repair "a root operation type must be an object
+      type" this is an INVARIANT of `load` (`Gql.Load.loaded_rootTypesAreObjects`, the loader's last check)
+      and no longer a hypothesis:
+        `QueryRootNotKind k s`            the query root is not of kind `k ≠ object` (`loaded_queryRootNotKind`)
                                           (`QueryRootNotInput s` of C07 is `QueryRootNotKind .inputObject s`)
         `SubscriptionRootIsObject s`      the subscription root, if any, is an object type
-        all of them follow from `Gql.Spec.rootTypesAreObjects s = true` (`queryRootNotKind_of_rootsObjects`,
-        `subscriptionRootIsObject_of_rootsObjects`).
-      Kernel-checked witnesses that they cannot be dropped:
-        `loaded_subscriptionRootExact_counterexample`   `interface Subscription { a: Int }` loads, the
-                                                        subscription root is an interface
-        `loaded_scalars_no_fields_counterexample`       `scalar Query` loads and the loaded SCALAR `Query`
-                                                        has the two introspection fields; `schemaOK` is false
-        `loaded_inputPositionsPlain_counterexample`     `enum Query { A }` is the query root and the type of
-                                                        an argument: an argument type that has fields
-        (`C07_closed_fieldTypes_counterexample`         `input Query { foo: String }`, in Props/C07.lean)
+                                          (`loaded_subscriptionRootIsObject`)
+      The former witnesses that (R) could not be dropped are now rejected documents:
+        `loaded_subscriptionRoot_interface_rejected`    `interface Subscription { a: Int }`
+        `loaded_scalar_query_rejected`                  `scalar Query`
+        `loaded_enum_query_rejected`                    `enum Query { A }`
+        (`C07_input_query_root_rejected`                `input Query { foo: String }`, in Props/C07.lean)
 
   (T) shape of the `SchemaDoc` tree that the parser guarantees but the tree type does not:
         `KindFieldless k sd`              definitions and extensions of kind `k` carry no fields
@@ -68,7 +65,7 @@ open Gql Gql.Load Gql.Validate
 
 /-! ### the named hypotheses -/
 
-/-- (R) the query root of the loaded schema is not of kind `k` (the loader does not check root kinds).
+/-- (R) the query root of the loaded schema is not of kind `k` (an invariant of `load` for `k ≠ object`).
     `QueryRootNotInput s` (C07) is `QueryRootNotKind .inputObject s`. -/
 def QueryRootNotKind (k : DefKind) (s : Schema) : Prop :=
   ∀ q d, s.query = some q → (q, d) ∈ s.types → d.kind ≠ k
@@ -104,11 +101,10 @@ theorem preludeDeclared_introspection {sd : SchemaDoc} (hp : PreludeDeclared sd)
 /-! ### one-liners from C07 -/
 
 /-- **Closed**.  `C07_loaded_closed` needs: the introspection types are declared (the prelude is part of
-    the document) and the query root is not an input object (witness that this cannot be dropped:
-    `C07_closed_fieldTypes_counterexample`, `input Query { foo: String }`). -/
+    the document). -/
 theorem loaded_closed {sd : SchemaDoc} {s : Schema} (h : load sd = .ok s)
-    (hp : IntrospectionTypesDeclared sd) (hq : QueryRootNotInput s) : Gql.Spec.Closed s :=
-  C07_loaded_closed h hp hq
+    (hp : IntrospectionTypesDeclared sd) : Gql.Spec.Closed s :=
+  C07_loaded_closed h hp
 
 /-- **KeysConsistent**: no hypothesis -/
 theorem loaded_keysConsistent {sd : SchemaDoc} {s : Schema} (h : load sd = .ok s) : Gql.Spec.KeysConsistent s :=
@@ -183,6 +179,16 @@ theorem subscriptionRootIsObject_of_rootsObjects {s : Schema} (hroots : Gql.Spec
   have := List.all_eq_true.1 hroots s.subscription (by simp)
   rw [hn] at this
   exact this
+
+/-- (R) is an invariant of `load`: the query root is an object type -/
+theorem loaded_queryRootNotKind {sd : SchemaDoc} {s : Schema} (h : load sd = .ok s) {k : DefKind} (hk : k ≠ .object) :
+    QueryRootNotKind k s :=
+  queryRootNotKind_of_rootsObjects h (loaded_rootTypesAreObjects h) hk
+
+/-- (R) is an invariant of `load`: the subscription root, if any, is an object type -/
+theorem loaded_subscriptionRootIsObject {sd : SchemaDoc} {s : Schema} (h : load sd = .ok s) :
+    SubscriptionRootIsObject s :=
+  subscriptionRootIsObject_of_rootsObjects (loaded_rootTypesAreObjects h)
 
 /-! ### the type map is built from the definitions and extensions of the document -/
 
@@ -301,10 +307,11 @@ theorem buildState_types_all {Q : Name × Definition → Prop} {sd : SchemaDoc} 
 /-! ### definitions of a kind that has no field syntax declare no fields -/
 
 /-- in a loaded schema the definitions of kind `k` declare no fields, when the document's definitions
-    and extensions of kind `k` carry none (T) and the query root — to which the loader appends
-    `__schema` / `__type` whatever its kind — is not of kind `k` (R) -/
+    and extensions of kind `k` carry none (T); `k ≠ object`: the query root, to which the loader appends
+    `__schema` / `__type`, is an object type -/
 theorem loaded_kind_no_fields {sd : SchemaDoc} {s : Schema} (h : load sd = .ok s) {k : DefKind}
-    (hk : KindFieldless k sd) (hq : QueryRootNotKind k s) : ∀ p ∈ s.types, p.2.kind = k → p.2.fields = [] := by
+    (hk : KindFieldless k sd) (hko : k ≠ .object) : ∀ p ∈ s.types, p.2.kind = k → p.2.fields = [] := by
+  have hq : QueryRootNotKind k s := loaded_queryRootNotKind h hko
   obtain ⟨st, r1, d1, F⟩ := loaded_facts h
   have hst : ∀ p ∈ st.types, p.2.kind = k → p.2.fields = [] := by
     refine buildState_types_all (Q := fun p => p.2.kind = k → p.2.fields = []) ?_ ?_ ?_ F.built
@@ -329,25 +336,24 @@ theorem loaded_kind_no_fields {sd : SchemaDoc} {s : Schema} (h : load sd = .ok s
 
 /-- **scalars declare no fields** -/
 theorem loaded_scalars_no_fields {sd : SchemaDoc} {s : Schema} (h : load sd = .ok s)
-    (hk : KindFieldless .scalar sd) (hq : QueryRootNotKind .scalar s) :
+    (hk : KindFieldless .scalar sd) :
     ∀ p ∈ s.types, p.2.kind = .scalar → p.2.fields = [] :=
-  loaded_kind_no_fields h hk hq
+  loaded_kind_no_fields h hk (by decide)
 
 /-- scalars and enums declare no fields (the form `inputPositionsPlain_of_closed` asks for) -/
 theorem loaded_leaves_no_fields {sd : SchemaDoc} {s : Schema} (h : load sd = .ok s)
-    (hks : KindFieldless .scalar sd) (hke : KindFieldless .enum sd)
-    (hqs : QueryRootNotKind .scalar s) (hqe : QueryRootNotKind .enum s) :
+    (hks : KindFieldless .scalar sd) (hke : KindFieldless .enum sd) :
     ∀ p ∈ s.types, p.2.kind = .scalar ∨ p.2.kind = .enum → p.2.fields = [] := by
   intro p hp hkind
   rcases hkind with hkind | hkind
-  · exact loaded_kind_no_fields h hks hqs p hp hkind
-  · exact loaded_kind_no_fields h hke hqe p hp hkind
+  · exact loaded_kind_no_fields h hks (by decide) p hp hkind
+  · exact loaded_kind_no_fields h hke (by decide) p hp hkind
 
 /-- a union declares no fields of its own either (the side remark of `Spec.wellParented`) -/
 theorem loaded_unions_no_fields {sd : SchemaDoc} {s : Schema} (h : load sd = .ok s)
-    (hk : KindFieldless .union sd) (hq : QueryRootNotKind .union s) :
+    (hk : KindFieldless .union sd) :
     ∀ p ∈ s.types, p.2.kind = .union → p.2.fields = [] :=
-  loaded_kind_no_fields h hk hq
+  loaded_kind_no_fields h hk (by decide)
 
 /-! ### no type has the empty name -/
 
@@ -377,31 +383,27 @@ theorem loaded_noEmptyTypeName {sd : SchemaDoc} {s : Schema} (h : load sd = .ok 
 /-! ### `schemaOK`, `inputPositionsPlain`, `subscriptionRootExact` -/
 
 /-- **schemaOK** (ValuesOfCorrectType): the prelude is part of the document (P: a definition named like
-    a built-in scalar is that scalar); the query root is not an input object (R: otherwise the appended
-    output-typed introspection fields sit in an input object) and not a scalar (R: otherwise they sit in
-    a scalar); scalar definitions and extensions carry no fields (T). -/
+    a built-in scalar is that scalar); scalar definitions and extensions carry no fields (T).
+    (Formerly also (R): the query root is neither an input object nor a scalar.) -/
 theorem loaded_schemaOK {sd : SchemaDoc} {s : Schema} (h : load sd = .ok s) (hp : PreludeDeclared sd)
-    (hk : KindFieldless .scalar sd) (hqi : QueryRootNotInput s) (hqs : QueryRootNotKind .scalar s) :
-    schemaOK s = true :=
-  schemaOK_of_closed s (C07_closed_keys h) (C07_closed_fieldTypes h (preludeDeclared_introspection hp) hqi)
-    (C07_prelude_present h hp) (loaded_scalars_no_fields h hk hqs)
+    (hk : KindFieldless .scalar sd) : schemaOK s = true :=
+  schemaOK_of_closed s (C07_closed_keys h) (C07_closed_fieldTypes h (preludeDeclared_introspection hp))
+    (C07_prelude_present h hp) (loaded_scalars_no_fields h hk)
 
-/-- **inputPositionsPlain** (VariablesInAllowedPosition): the introspection types are declared (P), the
-    query root is not an input object, a scalar or an enum (R), scalar and enum definitions and
-    extensions carry no fields (T) -/
+/-- **inputPositionsPlain** (VariablesInAllowedPosition): the introspection types are declared (P),
+    scalar and enum definitions and extensions carry no fields (T) -/
 theorem loaded_inputPositionsPlain {sd : SchemaDoc} {s : Schema} (h : load sd = .ok s)
-    (hp : IntrospectionTypesDeclared sd) (hks : KindFieldless .scalar sd) (hke : KindFieldless .enum sd)
-    (hqi : QueryRootNotInput s) (hqs : QueryRootNotKind .scalar s) (hqe : QueryRootNotKind .enum s) :
+    (hp : IntrospectionTypesDeclared sd) (hks : KindFieldless .scalar sd) (hke : KindFieldless .enum sd) :
     inputPositionsPlain s = true :=
-  inputPositionsPlain_of_closed s (C07_loaded_closed h hp hqi) (loaded_leaves_no_fields h hks hke hqs hqe)
+  inputPositionsPlain_of_closed s (C07_loaded_closed h hp) (loaded_leaves_no_fields h hks hke)
 
-/-- **subscriptionRootExact** (SingleFieldSubscriptions): the subscription root, if any, is an object
-    type (R) — the recorded "non-object root" finding; `loaded_subscriptionRootExact_counterexample`
-    shows that the hypothesis cannot be dropped.  (Only the SUBSCRIPTION root matters: the bridge lemma
+/-- **subscriptionRootExact** (SingleFieldSubscriptions), no hypothesis: the subscription root, if any,
+    is an object type (`loaded_subscriptionRootIsObject`).  (Only the SUBSCRIPTION root matters: the bridge lemma
     `subscriptionRootExact_of_loaded` is applied to the schema with the two other roots erased, which
     `subscriptionRootExact`, `KeysConsistent` and `possibleAbstractExact` do not read.) -/
-theorem loaded_subscriptionRootExact {sd : SchemaDoc} {s : Schema} (h : load sd = .ok s)
-    (hsub : SubscriptionRootIsObject s) : subscriptionRootExact s = true := by
+theorem loaded_subscriptionRootExact {sd : SchemaDoc} {s : Schema} (h : load sd = .ok s) :
+    subscriptionRootExact s = true := by
+  have hsub : SubscriptionRootIsObject s := loaded_subscriptionRootIsObject h
   have hk : Gql.Spec.KeysConsistent s := C07_closed_keys h
   have hp : Gql.Spec.possibleAbstractExact s = true := (C07_relations_exact h).possibleAbstractExact
   have key := subscriptionRootExact_of_loaded { s with query := none, mutation := none } hk hp (by
@@ -464,11 +466,11 @@ theorem fieldTypesAreOutputTypes_of_closed (s : Schema) (d : QueryDoc) (hft : Gq
           cases hkk : ft.kind <;> simp_all [Gql.Validate.Spec.isLeaf, Gql.Validate.Spec.isComposite]
 
 /-- **fieldTypesAreOutputTypes** (field `outputTypes` of `C08Hyps`), for every document: the
-    introspection types are declared (P) and the query root is not an input object (R) -/
+    introspection types are declared (P) -/
 theorem loaded_fieldTypesAreOutputTypes {sd : SchemaDoc} {s : Schema} (h : load sd = .ok s)
-    (hp : IntrospectionTypesDeclared sd) (hq : QueryRootNotInput s) (d : QueryDoc) :
+    (hp : IntrospectionTypesDeclared sd) (d : QueryDoc) :
     Gql.Validate.Spec.fieldTypesAreOutputTypes s d = true := by
-  refine fieldTypesAreOutputTypes_of_closed s d (C07_closed_fieldTypes h hp hq) ?_
+  refine fieldTypesAreOutputTypes_of_closed s d (C07_closed_fieldTypes h hp) ?_
   intro dd hdd hio
   obtain ⟨d', hd', hk⟩ := loaded_declares h hp.string
   rw [hdd] at hd'
@@ -500,32 +502,28 @@ structure LoadedHyps (s : Schema) : Prop where
 
 /-- **all schema-side hypotheses at once**, from: the prelude is part of the document (P), scalar and
     enum definitions/extensions carry no fields and no definition/extension has the empty name (T: both
-    hold of parser output), and the root operation types are object types (R: the recorded finding — the
-    loader does not enforce it). -/
+    hold of parser output).  (Formerly also (R), root operation types are object types: now an invariant
+    of `load`.) -/
 theorem loaded_hyps {sd : SchemaDoc} {s : Schema} (h : load sd = .ok s) (hp : PreludeDeclared sd)
-    (hks : KindFieldless .scalar sd) (hke : KindFieldless .enum sd) (hn : NamesNonEmpty sd)
-    (hroots : Gql.Spec.rootTypesAreObjects s = true) : LoadedHyps s :=
+    (hks : KindFieldless .scalar sd) (hke : KindFieldless .enum sd) (hn : NamesNonEmpty sd) : LoadedHyps s :=
   have hi := preludeDeclared_introspection hp
-  have hqi : QueryRootNotInput s := queryRootNotKind_of_rootsObjects h hroots (by decide)
-  have hqs : QueryRootNotKind .scalar s := queryRootNotKind_of_rootsObjects h hroots (by decide)
-  have hqe : QueryRootNotKind .enum s := queryRootNotKind_of_rootsObjects h hroots (by decide)
-  { closed := loaded_closed h hi hqi
+  { closed := loaded_closed h hi
     keys := loaded_keysConsistent h
     relations := loaded_relationsExact h
     hasBuiltins := loaded_hasBuiltins h hp
     possibleOK := loaded_possibleOK h
-    schemaOK := loaded_schemaOK h hp hks hqi hqs
-    scalarsNoFields := loaded_scalars_no_fields h hks hqs
-    leavesNoFields := loaded_leaves_no_fields h hks hke hqs hqe
-    subscriptionRoot := loaded_subscriptionRootExact h (subscriptionRootIsObject_of_rootsObjects hroots)
-    inputPositions := loaded_inputPositionsPlain h hi hks hke hqi hqs hqe
+    schemaOK := loaded_schemaOK h hp hks
+    scalarsNoFields := loaded_scalars_no_fields h hks
+    leavesNoFields := loaded_leaves_no_fields h hks hke
+    subscriptionRoot := loaded_subscriptionRootExact h
+    inputPositions := loaded_inputPositionsPlain h hi hks hke
     noEmptyTypeName := loaded_noEmptyTypeName h hn
     hasString := loaded_hasString h hi.string
     argTypes := loaded_closedArgTypes h hi
     directiveArgTypes := loaded_closedDirectiveArgTypes h
-    outputTypes := loaded_fieldTypesAreOutputTypes h hi hqi }
+    outputTypes := loaded_fieldTypesAreOutputTypes h hi }
 
-/-! ### kernel-checked witnesses: the hypotheses (R) and (T) cannot be dropped -/
+/-! ### kernel-checked witnesses: the former witnesses of (R) are rejected; the hypotheses (T) cannot be dropped -/
 
 namespace Witness
 open Gql.Examples
@@ -535,6 +533,19 @@ def onLoaded (sd : SchemaDoc) (p : Schema → Bool) : Bool :=
   match load sd with
   | .ok s => p s
   | _ => false
+
+/-- run a Boolean test on the error a document is rejected with (`false` when it loads) -/
+def onRejected (sd : SchemaDoc) (p : LoadError → Bool) : Bool :=
+  match load sd with
+  | .err e => p e
+  | _ => false
+
+theorem onRejected_elim {sd : SchemaDoc} {p : LoadError → Bool} (h : onRejected sd p = true) :
+    ∃ e, load sd = .err e ∧ p e = true := by
+  unfold onRejected at h
+  split at h
+  · rename_i e he; exact ⟨e, he, h⟩
+  · cases h
 
 theorem onLoaded_elim {sd : SchemaDoc} {p : Schema → Bool} (h : onLoaded sd p = true) : ∃ s, load sd = .ok s ∧ p s = true := by
   unfold onLoaded at h
@@ -565,37 +576,36 @@ def emptyNameDoc : SchemaDoc := doc (miniPrelude ++ [queryA, { queryA with name 
 end Witness
 
 open Witness in
-/-- the "non-object root" finding: `type Query { a: Int }  interface Subscription { a: Int }` loads, its
-    subscription root is the interface, and `subscriptionRootExact` is false — `loaded_subscriptionRootExact`
-    cannot lose `SubscriptionRootIsObject` -/
-theorem loaded_subscriptionRootExact_counterexample :
-    ∃ sd s, load sd = .ok s ∧ subscriptionRootExact s = false ∧ Gql.Spec.rootTypesAreObjects s = false := by
-  obtain ⟨s, hs, hp⟩ := onLoaded_elim (sd := interfaceSubscriptionDoc)
-    (p := fun s => !subscriptionRootExact s && !Gql.Spec.rootTypesAreObjects s) (by decide)
-  simp only [Bool.and_eq_true, Bool.not_eq_true'] at hp
-  exact ⟨_, s, hs, hp.1, hp.2⟩
+/-- the former witness of the "non-object root" finding, `type Query { a: Int }  interface Subscription
+    { a: Int }`, is rejected: "Schema root subscription must be an object type, Subscription is a
+    INTERFACE." at the definition of `Subscription` (before the repair the interface became the
+    subscription root and `subscriptionRootExact` was false) -/
+theorem loaded_subscriptionRoot_interface_rejected :
+    ∃ e, load interfaceSubscriptionDoc = .err e ∧
+      e.msg = Msg.rootNotObject Load.opSubscription (str "Subscription") .interface ∧ e.line = 2 := by
+  obtain ⟨e, he, hp⟩ := onRejected_elim (sd := interfaceSubscriptionDoc)
+    (p := fun e => decide (e.msg = Msg.rootNotObject Load.opSubscription (str "Subscription") .interface ∧ e.line = 2)) (by decide)
+  exact ⟨e, he, of_decide_eq_true hp⟩
 
 open Witness in
-/-- `scalar Query` loads; the loaded scalar `Query` has (the two introspection) fields and `schemaOK` is
-    false — `loaded_scalars_no_fields` / `loaded_schemaOK` cannot lose `QueryRootNotKind .scalar`
-    (the document satisfies `KindFieldless .scalar`) -/
-theorem loaded_scalars_no_fields_counterexample :
-    ∃ sd s, load sd = .ok s ∧ KindFieldless .scalar sd ∧ schemaOK s = false ∧
-      ∃ p ∈ s.types, p.2.kind = .scalar ∧ p.2.fields ≠ [] := by
-  obtain ⟨s, hs, hp⟩ := onLoaded_elim (sd := scalarQueryDoc)
-    (p := fun s => !schemaOK s && s.types.any fun p => p.2.kind == .scalar && !p.2.fields.isEmpty) (by decide)
-  simp only [Bool.and_eq_true, Bool.not_eq_true', List.any_eq_true, beq_iff_eq, List.isEmpty_eq_false_iff] at hp
-  obtain ⟨h1, p, hp1, hp2, hp3⟩ := hp
-  exact ⟨_, s, hs, kindFieldless_of_all (by decide), h1, p, hp1, hp2, hp3⟩
+/-- `scalar Query` is rejected: "Schema root query must be an object type, Query is a SCALAR." (before the
+    repair the scalar became the query root, received `__schema` / `__type`, and `schemaOK` was false) -/
+theorem loaded_scalar_query_rejected :
+    ∃ e, load scalarQueryDoc = .err e ∧ e.msg = Msg.rootNotObject Load.opQuery (str "Query") .scalar ∧
+      KindFieldless .scalar scalarQueryDoc := by
+  obtain ⟨e, he, hp⟩ := onRejected_elim (sd := scalarQueryDoc)
+    (p := fun e => decide (e.msg = Msg.rootNotObject Load.opQuery (str "Query") .scalar)) (by decide)
+  exact ⟨e, he, of_decide_eq_true hp, kindFieldless_of_all (by decide)⟩
 
 open Witness in
-/-- `enum Query { A }  type T { f(x: Query): Int }` loads and `inputPositionsPlain` is false (the argument
-    type `Query` is an enum WITH fields) — `loaded_inputPositionsPlain` cannot lose `QueryRootNotKind .enum` -/
-theorem loaded_inputPositionsPlain_counterexample :
-    ∃ sd s, load sd = .ok s ∧ inputPositionsPlain s = false := by
-  obtain ⟨s, hs, hp⟩ := onLoaded_elim (sd := enumQueryDoc) (p := fun s => !inputPositionsPlain s) (by decide)
-  simp only [Bool.not_eq_true'] at hp
-  exact ⟨_, s, hs, hp⟩
+/-- `enum Query { A }  type T { f(x: Query): Int }` is rejected: "Schema root query must be an object type,
+    Query is a ENUM." (before the repair the enum was the query root WITH fields and the type of an
+    argument: `inputPositionsPlain` was false) -/
+theorem loaded_enum_query_rejected :
+    ∃ e, load enumQueryDoc = .err e ∧ e.msg = Msg.rootNotObject Load.opQuery (str "Query") .enum := by
+  obtain ⟨e, he, hp⟩ := onRejected_elim (sd := enumQueryDoc)
+    (p := fun e => decide (e.msg = Msg.rootNotObject Load.opQuery (str "Query") .enum)) (by decide)
+  exact ⟨e, he, of_decide_eq_true hp⟩
 
 open Witness in
 /-- the loader does not look at the field list of a scalar definition: a tree whose scalar `S` carries a
@@ -656,8 +666,8 @@ end Gql.EndToEnd
 #print axioms Gql.EndToEnd.fieldTypesAreOutputTypes_of_closed
 #print axioms Gql.EndToEnd.loaded_fieldTypesAreOutputTypes
 #print axioms Gql.EndToEnd.loaded_hyps
-#print axioms Gql.EndToEnd.loaded_subscriptionRootExact_counterexample
-#print axioms Gql.EndToEnd.loaded_scalars_no_fields_counterexample
-#print axioms Gql.EndToEnd.loaded_inputPositionsPlain_counterexample
+#print axioms Gql.EndToEnd.loaded_subscriptionRoot_interface_rejected
+#print axioms Gql.EndToEnd.loaded_scalar_query_rejected
+#print axioms Gql.EndToEnd.loaded_enum_query_rejected
 #print axioms Gql.EndToEnd.loaded_kindFieldless_counterexample
 #print axioms Gql.EndToEnd.loaded_noEmptyTypeName_counterexample
